@@ -181,6 +181,21 @@ CLAIMED["C17"] = {
     "design": "DESIGN.md section 3 C17",
 }
 
+CLAIMED["C15"] = {
+    "text": "Bounded model checking of the real FmtStr.split / splitlines / ljust / rjust / join and the __getattr__ "
+            "delegation for a 50-entry catalogue of method+argument combinations (25 delegated str methods): f has 1..2 "
+            "runs of SYMBOLIC text (total <= 3, thorough 4, characters symbolic over the instance's alphabet), widths "
+            "symbolic; for methods whose CrossHair str model is too slow the texts are catalogue entries. On every path "
+            "the result is compared with the same method on the plain text; pieces of split/splitlines must equal the "
+            "corresponding slice of f per character; other text results must carry every attribute all characters share "
+            "and none that no character had; a three-step history (use the parent, take a piece, call a method on the "
+            "piece) and join against str.join are included.",
+    "note": "Trusted: CPython, CrossHair + z3 and its models of the str methods and re (violations are replayed on CPython). "
+            "split() without separator and maxsplit are outside (the statement says explicit separator or regex).",
+    "technique": TECH + "; native symbolic strings, per-method differential oracle against str",
+    "design": "DESIGN.md section 3 C15",
+}
+
 NOT_YET = {}
 
 ALL = ["C%02d" % i for i in range(1, 21)]
